@@ -61,6 +61,11 @@ func configProfile() Profile {
 	p.Weights_ = []string{"0", "0.000000000000000001", "0.5", "1", "5", "1000000000000"}
 	p.NoOverflowGuard = true
 	p.InvalidPct = 5
+	// what is "accepted" is the module's decision: requests with nil / negative / swapped / huge
+	// fields are sent too, and whatever gets through must leave the end-of-block runnable
+	p.GovFuzz = true
+	p.Weights[KDonate] = 2
+	p.Weights[GUpdateThenDecay] = 6
 	return p
 }
 
@@ -106,6 +111,7 @@ func govProfile() Profile {
 	p.Name = "governance"
 	p.Weights = map[string]int{KCreate: 14, KUpdate: 22, KDelete: 10, KParams: 10, KDelegate: 14, KUndelegate: 6, KRedelegate: 3, KBlock: 16, KClaim: 2, KSlashHook: 1}
 	p.GovFuzz = true
+	p.Weights[GUpdateThenDecay] = 4
 	p.InvalidPct = 15
 	p.Delays = []int64{0, 0, sec, 7 * day}
 	p.ChRates = []string{"1", "0.5", "0.99", "1.01"}
@@ -218,6 +224,7 @@ func powerProfile() Profile {
 	p.HugeAmounts = false
 	p.Weights[KReimport] = 2
 	p.Weights[GReimportWhileOut] = 3
+	p.Weights[KDonate] = 2
 	return p
 }
 
